@@ -276,6 +276,16 @@ def run(ck: Check):
                 ck.count("shrinking_updates", nshrink)
                 nphase += 1
     ck.count("slow_clock_two_shift_runs", nphase)
+    # values of magnitude 1e152 (their squares are near the top of the binary64 range, the sum of squared deviations of a few
+    # hundred of them is still finite): total / variance must stay the sum / SSD of the window, and a level change is cut
+    for rep, lv2 in enumerate((1.0, 1.9)):
+        n = 300
+        xs = [prng.uniform(1.0, 1.2) * 1e152 for _ in range(n // 2)] + [prng.uniform(lv2, lv2 + 0.2) * 1e152 for _ in range(n - n // 2)]
+        cfgp = dict(clock=prng.choice([1, 4]), delta=0.002, m=5, min_window_size=5, min_num_instances=10)
+        trace, ok = monitor(ck, cfgp, xs)
+        nshrink = sum(1 for t in trace if t[0])
+        ck.case(dict(family="huge-magnitudes", config=cfgp, n=n, second_level=lv2, shrinks=nshrink), nontrivial=nshrink > 0, key=repr(("huge", cfgp, rep)))
+        ck.count("huge_magnitude_runs")
     # min_num_instances raised / lowered through the configuration's setter shortly before a level change:
     # raised -> no cut while the window is narrower than the NEW value; lowered -> the due checks run (no exceeding split survives)
     for lo, hi, direction in ((5, 150, "raised"), (300, 5, "lowered"), (10, 90, "raised"), (200, 3, "lowered")):
